@@ -294,6 +294,53 @@ PENDING_REASON = ('check not built yet in this round; design in DESIGN.md '
                   'section 4, construction order in section 2.7')
 
 
+# what was added to every check after the rounds of independently written
+# breaking changes (DESIGN.md 8.2 / 8.5)
+IMAGE_EXTRA = (' Ambient per case: tracing flag, logger level, chunk object '
+               'type (bytes / bytearray / memoryview of a reused buffer that '
+               'is overwritten after the call), a decoy stream read through '
+               'another instance, non-interned selector strings; the '
+               'deterministic sub-checks run again in a python -O child; the '
+               'documented call interface is pinned.')
+EXTRA = {
+    'C04': ' Also: 19-130 secrets per message, masks with backslashes, '
+           'first-use thread schedules and preemption sweeps, python -O '
+           'child, subclass arguments, interface pins.',
+    'C08': ' Also: lazily built mapping chains, quacking non-mappings, '
+           'fault-then-retry, preemption sweeps, python -O child.',
+    'C09': ' Also: exception groups, falsy exception objects, reused '
+           'instances, symlink and link/.. path states, python -O child.',
+    'C10': ' Also: exactness (no tolerance) where binary floating point is '
+           'exact, format tokens, long texts, first-use races and preemption '
+           'sweeps, python -O child, subclass arguments.',
+    'C11': ' Also: confusable code points, subclass arguments, preemption '
+           'ring, python -O child.',
+    'C12': ' Also: process-local time zone, huge second counts, repeated '
+           'unmarshalling of one payload, python -O child.',
+    'C13': ' Also: five-symbol core alphabet to length 7 / 9, zigzag clock, '
+           'ticking clock with an interval oracle, decimal self-consistency '
+           'relations, python -O child.',
+    'C14': ' Also: confusable code points, blanks inside UUIDs, every odd '
+           'subject type, subclass arguments, preemption sweeps.',
+    'C15': ' Also: zone ids that read like encodings, IPv4 networks as '
+           'prefixes, preemption ring, subclass arguments.',
+    'C16': ' Also: ASCII text in codecs that are not ASCII supersets, '
+           'ambient stdin encodings, python -O child.',
+    'C17': ' Also: positional same_major, shared-predicate preemption ring, '
+           'subclass arguments.',
+    'C18': ' Also: grammar aliasing check, preemption ring, subclass '
+           'arguments.',
+    'C19': ' Also: preemption sweeps and first-use races of the lazily '
+           'imported grammar, unclosed quotes after line breaks, format '
+           'tokens, subclass arguments.',
+    'C20': ' Also: errno on foreign exception classes, competitor races, '
+           'eight real threads, procfs / FIFO sources, every hashlib '
+           'algorithm, symlinked directories, link/.. paths.',
+}
+for _p in ('C01', 'C02', 'C03', 'C05', 'C06', 'C07'):
+    EXTRA[_p] = IMAGE_EXTRA
+
+
 def main():
     props = []
     with open(os.path.join(VERIF, 'properties.jsonl')) as f:
@@ -305,6 +352,7 @@ def main():
         if pid not in CHECKS:
             continue
         tech, cat, text, note, ref = CHECKS[pid]
+        text = text + EXTRA.get(pid, '')
         checks.append({
             'property_id': pid,
             'quick_cmd': '/venv/bin/python -m vcheck %s --tier quick' % pid,
